@@ -634,3 +634,35 @@ Check rtc_filter_is_a_policy_wrapper :
   forall acc rts x attrs nh fam il,
     rtc_allows acc rts (fst (pre_policy_defaults x attrs nh fam il)) = rtc_allows acc rts attrs.
 Print Assumptions rtc_filter_is_a_policy_wrapper.
+
+(* Best-only sessions: ExportMap::was_sent says exactly whether the neighbour holds a
+   route for the destination — after one call if it did before, and therefore along any
+   history that starts with nothing sent (so the hypothesis "was sent" of
+   llgr_refresh_best_only means "the neighbour holds a copy"). *)
+Theorem export_map_tracks_view :
+  forall fixed x pol raddr cid c e r,
+    not_addpath e ->
+    process_change_v fixed x pol 1 raddr cid c e = Ok r ->
+    not_addpath (snd r)
+    /\ forall d v0, has_entry v0 = em_was_sent e d ->
+         has_entry (view_after (fst r) d 0 v0) = em_was_sent (snd r) d.
+Proof. exact C09_export_map_tracks_view. Qed.
+Check export_map_tracks_view :
+  forall fixed x pol raddr cid c e r,
+    not_addpath e ->
+    process_change_v fixed x pol 1 raddr cid c e = Ok r ->
+    not_addpath (snd r)
+    /\ forall d v0, has_entry v0 = em_was_sent e d ->
+         has_entry (view_after (fst r) d 0 v0) = em_was_sent (snd r) d.
+Print Assumptions export_map_tracks_view.
+
+Theorem export_map_tracks_view_history :
+  forall x pol raddr cid cs r d,
+    run_changes x pol 1 raddr cid cs ENone = Ok r ->
+    has_entry (view_after (fst r) d 0 None) = em_was_sent (snd r) d.
+Proof. exact C09_export_map_tracks_view_history. Qed.
+Check export_map_tracks_view_history :
+  forall x pol raddr cid cs r d,
+    run_changes x pol 1 raddr cid cs ENone = Ok r ->
+    has_entry (view_after (fst r) d 0 None) = em_was_sent (snd r) d.
+Print Assumptions export_map_tracks_view_history.
